@@ -275,6 +275,15 @@ def rhpDiffBuild : List String → String
     | _, _ => "bad-op"
   | _ => "bad-op"
 
+/-- `rhp-diff-apply actions roots`: plain root of the list the actions denote (`applyActions`) -/
+def rhpDiffApply : List String → String
+  | [as, roots] => match actions as, hashList roots with
+    | some as, some l => match applyActions l as with
+      | .ok l' => "ok " ++ hex (metaRoot l' : ByteArray)
+      | .error _ => "panic"
+    | _, _ => "bad-op"
+  | _ => "bad-op"
+
 def rhpDiffVerify : List String → String
   | [as, n, th, lh, o, nw] =>
     match actions as, n.toNat?, hashList th, hashList lh, hash1 o, hash1 nw with
@@ -343,6 +352,7 @@ def rhpOps : List (String × (List String → String)) := [
   ("rhp-append-verify4", rhpAppendVerify4),
   ("rhp-diff-build", rhpDiffBuild),
   ("rhp-diff-verify", rhpDiffVerify),
+  ("rhp-diff-apply", rhpDiffApply),
   ("rhp-diff-size", rhpDiffSize),
   ("rhp-free-build", rhpFreeBuild),
   ("rhp-free-verify", rhpFreeVerify),
